@@ -21,7 +21,8 @@ type C15Cfg struct {
 	Order   []int    `json:"order"`   // reply order: request ids (index into the flattened caller strings)
 	Fault   string   `json:"fault"`   // "", stall, close, corrupt
 	FaultAt int      `json:"fault_at"`
-	Imm     bool     `json:"imm"` // the fault happens right after reply FaultAt-1, without waiting for request Order[FaultAt]
+	Imm     bool     `json:"imm"`              // the fault happens right after reply FaultAt-1, without waiting for request Order[FaultAt]
+	Server  bool     `json:"server,omitempty"` // the peer is the REAL rpc.Server (replica side) over a stub data processor
 }
 
 func (c C15Cfg) String() string {
@@ -31,6 +32,9 @@ func (c C15Cfg) String() string {
 		if c.Imm {
 			f += "!"
 		}
+	}
+	if c.Server {
+		return fmt.Sprintf("%s callers=%s peer=real rpc.Server", c.Name, strings.Join(c.Callers, "|"))
 	}
 	return fmt.Sprintf("%s callers=%s order=%v fault=%s", c.Name, strings.Join(c.Callers, "|"), c.Order, f)
 }
@@ -299,6 +303,49 @@ func (st *c15State) peer(conn *VConn) {
 	}
 }
 
+// c15Data is the data processor behind the real rpc.Server: reads return the pattern of their range, writes must carry it.
+type c15Data struct{ st *c15State }
+
+func (d c15Data) mark(typ uint32, off, size int64) {
+	vs.Atomic(func() {
+		for i := range d.st.ops {
+			o := &d.st.ops[i]
+			if o.typ == typ && o.off == off && o.size == size {
+				d.st.recs[i].replied = true
+				return
+			}
+		}
+		d.st.peerBad = append(d.st.peerBad, fmt.Sprintf("the server handed an unknown request to the data processor: type=%d off=%d size=%d", typ, off, size))
+	})
+}
+func (d c15Data) ReadAt(b []byte, off int64) (int, error) {
+	d.mark(rpc.TypeRead, off, int64(len(b)))
+	copy(b, pattern(off, int64(len(b))))
+	return len(b), nil
+}
+func (d c15Data) WriteAt(b []byte, off int64) (int, error) {
+	d.mark(rpc.TypeWrite, off, int64(len(b)))
+	if !bytes.Equal(b, pattern(off, int64(len(b)))) {
+		vs.Atomic(func() {
+			d.st.peerBad = append(d.st.peerBad, fmt.Sprintf("write off=%d len=%d reached the data processor with the wrong payload", off, len(b)))
+		})
+	}
+	return len(b), nil
+}
+func (d c15Data) Sync() (int, error)              { d.mark(rpc.TypeSync, 0, 0); return 0, nil }
+func (d c15Data) Unmap(off, l int64) (int, error) { d.mark(rpc.TypeUnmap, off, l); return 0, nil }
+func (d c15Data) Close() error                    { return nil }
+func (d c15Data) PingResponse() error             { d.mark(rpc.TypePing, 0, 0); return nil }
+
+// serverPeer is the replica side played by the real rpc.Server (what replica/rpc.Server.ListenAndServe runs per
+// connection); when Handle returns the connection is dropped, as the replica process would exit.
+func (st *c15State) serverPeer(conn *VConn) {
+	srv := rpc.NewServer(conn, c15Data{st})
+	err := srv.Handle()
+	vs.Atomic(func() { st.peerNotes = append(st.peerNotes, fmt.Sprintf("rpc.Server.Handle returned: %v", err)) })
+	conn.Close()
+}
+
 // RunC15 is the body of the main thread of one execution (also used free-running by the race pass).
 func RunC15(cfg C15Cfg, earlyTimer func() bool) (*c15State, func() *Outcome) {
 	st := &c15State{cfg: cfg, ops: flatten(cfg.Callers)}
@@ -312,7 +359,11 @@ func RunC15(cfg C15Cfg, earlyTimer func() bool) (*c15State, func() *Outcome) {
 			ci := ci
 			vs.Go(fmt.Sprintf("caller%d", ci), func() { st.caller(ci) })
 		}
-		vs.Go("peer", func() { st.peer(b) })
+		if cfg.Server {
+			vs.Go("server", func() { st.serverPeer(b) })
+		} else {
+			vs.Go("peer", func() { st.peer(b) })
+		}
 		if vs.Active() {
 			vs.Quiesce(0)
 		} else {
@@ -517,6 +568,7 @@ type Scenario struct {
 	Name    string
 	Callers []string
 	Levels  []Bounds
+	Server  bool
 }
 
 // C15Configs expands a scenario into every (reply order × fault variant) configuration.
@@ -538,6 +590,10 @@ func C15Configs(sc Scenario) []C15Cfg {
 			seen[k] = true
 			out = append(out, c)
 		}
+	}
+	if sc.Server {
+		// the real server decides the reply order itself; no scripted fault
+		return []C15Cfg{{Name: sc.Name, Callers: sc.Callers, Server: true}}
 	}
 	for _, ord := range linearExtensions(sc.Callers) {
 		add(C15Cfg{Name: sc.Name, Callers: sc.Callers, Order: ord})
